@@ -12,8 +12,11 @@ digest equality with the expected fingerprint, a ServerKeyExchange signature val
 certificate's key over this client's own random, key derivation from the share in that signed
 message, and a Finished that matched under those keys.  (That a valid signature over a fresh random
 proves possession of the private key, and that nobody without the ECDH secret can produce the
-matching verify_data, are ECDSA's / the PRF's security — `SigUnforgeable`, `VerifyDataBinding` —
-and are not assumed anywhere: the statements stop at the facts the code checks.)
+matching verify_data, are ECDSA's / the PRF's security.  Neither is assumed in this file: the statements
+stop at the facts the code checks.  The binding of verify_data to its inputs is a `Prop` over `Crypto` in
+`Theorems/C11.lean` (`VdInjective`, with `AcceptedFinishedWasSent` and `MasterSecretDeterminesKeys`), where
+it is a hypothesis of the agreement theorem and shown satisfiable; unforgeability of ECDSA signatures is not
+formalised at all.)
 -/
 import RtcModel.Lemmas.DtlsAuth
 import RtcModel.Lemmas.Fingerprint
